@@ -21,7 +21,11 @@ vars == <<len, n, phase, pos, groups, ipos, yielded>>
 
 GroupSize == IF len % n # 0 THEN (len \div n) + 1 ELSE len \div n
 
-Init == /\ len \in 0..MaxLen /\ n \in -1..MaxN
+\* group counts next to the largest int: Big stands for math.MaxInt (the harness maps Big - k to MaxInt - k);
+\* nothing in the algorithm may depend on n + something being representable
+Big == 1000000
+BigN == {Big - 2, Big - 1, Big}
+Init == /\ len \in 0..MaxLen /\ n \in (-1..MaxN) \cup BigN
         /\ pos = 0 /\ groups = <<>> /\ ipos = 0 /\ yielded = <<>>
         /\ phase = IF n <= 0 THEN "error" ELSE "build"
 
